@@ -1,6 +1,6 @@
 (* Correspondence for C06 (stream decoding): chunks written to the real Connection one at a time,
    recv_frame called until it is pending after each. *)
-From Rdest Require Import Base Consts Wire Conn.
+From Rdest Require Import Base Consts Wire Conn WireSpec.
 Open Scope N_scope.
 
 (* how recv_frame left off after a chunk: pending with n bytes buffered, closed, error, crash *)
@@ -90,10 +90,77 @@ Fixpoint unknown_oracle (seen : bytes) (chunks : list bytes) (obs : list (list m
   | _, _ => true
   end.
 
+(* The general form of that independent reading, for every stream.  The consumed part of the stream (everything but what
+   the decoder reports as still buffered) is cut into tokens by the length prefix alone -- 68 bytes where a handshake
+   begins ("\x13Bit" + "T"), 4 + L bytes otherwise -- and must consist of whole tokens; token by token, in order: a
+   keep-alive, a handshake or a frame with one of the nine ids is backed by the next delivered message, which it encodes
+   by the BEP3 layout of WireSpec.v (reserved handshake bytes free); a frame with any other id is backed by nothing; no
+   message is delivered that no token backs.  What stays buffered is not a complete token. *)
+Definition token_len (s : bytes) : option N :=       (* None: fewer than the 4 (5) bytes that decide *)
+  match s with
+  | a :: b :: c :: d :: rest =>
+      let L := ((a * 256 + b) * 256 + c) * 256 + d in
+      if L =? 0 then Some 4
+      else match rest with
+           | [] => None
+           | id :: _ => if (L =? 323119476) && (id =? 84) then Some 68 else Some (4 + L)
+           end
+  | _ => None
+  end.
+Definition handshake_token_ok (m : msg) (t : bytes) : bool :=
+  match m with
+  | Handshake h p => bytes_eqb (firstn 20 t) (19 :: pstr) && bytes_eqb (skipn 28 t) (h ++ p) && (len h =? 20) && (len p =? 20)
+  | _ => false
+  end.
+Fixpoint consumed_ok (fuel : nat) (s : bytes) (ms : list msg) : bool :=
+  match fuel with
+  | O => false
+  | S f =>
+      match s with
+      | [] => match ms with [] => true | _ => false end
+      | _ =>
+          match token_len s with
+          | None => false
+          | Some tl =>
+              if len s <? tl then false else
+              let t := firstn (N.to_nat tl) s in
+              let s' := skipn (N.to_nat tl) s in
+              let known := match t with
+                           | _ :: _ :: _ :: _ :: id :: _ => (tl =? 68) && (id =? 84) || (id <=? 8)
+                           | _ => true                       (* keep-alive *)
+                           end in
+              if known then
+                match ms with
+                | m :: ms' => (if tl =? 68 then match m with Handshake _ _ => handshake_token_ok m t | _ => bep3b m t end
+                               else bep3b m t) && consumed_ok f s' ms'
+                | [] => false
+                end
+              else consumed_ok f s' ms
+          end
+      end
+  end.
+Definition incomplete (rest : bytes) : bool :=
+  match token_len rest with None => true | Some tl => len rest <? tl end.
+Fixpoint token_oracle (seen : bytes) (delivered : list msg) (chunks : list bytes) (obs : list (list msg * term)) : bool :=
+  match chunks, obs with
+  | ch :: cs, (ms, t) :: os =>
+      let seen' := seen ++ ch in
+      let delivered' := delivered ++ ms in
+      match t with
+      | TPending n =>
+          if len seen' <? n then false else
+          let k := N.to_nat (len seen' - n) in
+          consumed_ok (S (length seen')) (firstn k seen') delivered' && incomplete (skipn k seen')
+          && token_oracle seen' delivered' cs os
+      | _ => true
+      end
+  | _, _ => true
+  end.
+
 Definition code (c : case) : N :=
   match c with
   | CConn chunks obs =>
       (if model_run [] chunks obs then 0 else 1) +
-      (if oracle_run [] [] chunks obs && unknown_oracle [] chunks obs then 0 else 2)
+      (if oracle_run [] [] chunks obs && unknown_oracle [] chunks obs && token_oracle [] [] chunks obs then 0 else 2)
   end.
 Definition codes (cs : list case) : list N := map code cs.
